@@ -590,6 +590,63 @@ func runC19(r *core.Run) {
 	runC19Runes(r)
 	runC19Numeric(r)
 	runC19Filter(r)
+	runC19FilterLengths(r)
+}
+
+// runC19FilterLengths: keys of EVERY length 0..maxL (the call sequences above use short keys only): a filter built from keys
+// of lengths L and L+1 contains exactly those, also after Extend and ExtendString, and the parent is unaffected.
+func runC19FilterLengths(r *core.Run) {
+	maxL := core.Pick(r, 300, 1200)
+	s := r.Sub("bytesfilter-key-lengths", fmt.Sprintf("for EVERY key length L = 0..%d: NewBytesFilter(k_L, k_L+1) contains k_L and k_L+1 and not k_L+2 or a same-length variant; Extend(k_L+2) and ExtendString(k_L+3) contain theirs plus the parent's and leave the parent unchanged", maxL))
+	key := func(l int, c byte) []byte {
+		b := make([]byte, l)
+		for i := range b {
+			b[i] = 'a' + byte(i%23)
+		}
+		if l > 0 {
+			b[l-1] = c
+		}
+		return b
+	}
+	core.ForEachIndex(maxL+1, core.Workers(), func(w int) func(int) {
+		return func(l int) {
+			k0, k1, k2, k3 := key(l, 'x'), key(l+1, 'x'), key(l+2, 'x'), key(l+3, 'x')
+			variant := key(l, 'y')
+			var fail string
+			func() {
+				defer func() {
+					if p := recover(); p != nil {
+						fail = fmt.Sprint("panic: ", p)
+					}
+				}()
+				f := util.NewBytesFilter(k0, k1)
+				g := f.Extend(k2)
+				h := f.ExtendString(string(k3))
+				type q struct {
+					name string
+					f    util.BytesFilter
+					k    []byte
+					want bool
+				}
+				for _, c := range []q{{"parent", f, k0, true}, {"parent", f, k1, true}, {"parent", f, k2, false}, {"parent", f, k3, false}, {"parent", f, variant, l == 0},
+					{"Extend", g, k0, true}, {"Extend", g, k1, true}, {"Extend", g, k2, true}, {"Extend", g, k3, false},
+					{"ExtendString", h, k0, true}, {"ExtendString", h, k3, true}, {"ExtendString", h, k2, false}} {
+					if got := c.f.Contains(c.k); got != c.want && fail == "" {
+						fail = fmt.Sprintf("%s filter: Contains(key of %d bytes) = %v, a set says %v", c.name, len(c.k), got, c.want)
+					}
+				}
+			}()
+			s.Evals.Add(12)
+			if fail != "" {
+				s.Violate("bytesfilter-differs-from-set:key-length", "", nil, []string{fmt.Sprintf("key length %d", l)}, fail, "set behaviour", "")
+			}
+			s.Distinct(uint64(l) + 1)
+		}
+	}, r.Expired)
+	s.Bound = fmt.Sprintf("L=0..%d", maxL)
+	s.States.Store(int64(maxL + 1))
+	s.Transitions.Store(s.Evals.Load())
+	s.Done()
 }
 
 func replayC19(r *core.Run, v *core.Violation) {
